@@ -133,9 +133,9 @@ def _json_default(o: Any):
       - numpy/pandas types (basic scalars) when available
       - mapping/sequence fallbacks
 
-    Raises:
-      TypeError when object cannot be represented; callers catch and fallback to
-      ``repr``.
+    Anything else is represented by its own ``repr``. (Raising instead would make
+    the caller fall back to ``repr`` of the *whole* object, whose mappings keep
+    insertion order, so equal content would serialize - and hash - differently.)
     """
     if hasattr(o, "to_json") and callable(getattr(o, "to_json")):
         try:
@@ -147,7 +147,7 @@ def _json_default(o: Any):
             return o.__dict__
         except Exception:  # pragma: no cover - defensive
             pass
-    raise TypeError(f"Object of type {type(o).__name__} is not JSON serializable")
+    return repr(o)
 
 
 def serialize(obj: Any) -> bytes:
